@@ -13,6 +13,7 @@ import (
 	"fmt"
 	"hash/fnv"
 	"os"
+	"os/exec"
 	"strconv"
 	"sync"
 
@@ -240,9 +241,9 @@ func (x *romInst) op(k int) int {
 		b := make([]byte, 8)
 		rd.Read(b)
 		_, err := r.BusReader(0x007000).Read(b)
-		return digest(r.Contents, r.Header.HeaderVersion(), b, err)
+		return digest(r.Contents, r.Header.HeaderVersion(), b, err, fmt.Sprintf("%v", r.Header))
 	}
-	return digest(r.Contents, r.Header.HeaderVersion(), fmt.Sprint(r.Header.NativeVectors))
+	return digest(r.Contents, r.Header.HeaderVersion(), fmt.Sprintf("%v", r.Header))
 }
 
 // ---- stateless functions hammered alongside (results must equal the solo results)
@@ -274,7 +275,7 @@ func newInst(kind string, id int) instance {
 	return newRomInst(id)
 }
 
-func soloRun(kind string, id int) []int {
+func soloRunHere(kind string, id int) []int {
 	x := newInst(kind, id)
 	out := make([]int, x.nops())
 	for k := range out {
@@ -282,6 +283,21 @@ func soloRun(kind string, id int) []int {
 	}
 	x.release()
 	return out
+}
+
+// "the result it produces when run alone": the reference run of an instance happens in a FRESH PROCESS (this binary
+// re-executed), so that state the library might keep between objects of one process cannot leak into the reference
+func soloRun(kind string, id int) []int {
+	out, err := exec.Command(os.Args[0], "inst", "solo1", kind, strconv.Itoa(id)).Output()
+	var res []int
+	if err != nil || json.Unmarshal(out, &res) != nil {
+		panic(fmt.Sprintf("solo reference process for %s %d failed: %v %s", kind, id, err, out))
+	}
+	return res
+}
+
+func statelessSolo(id int) int {
+	return soloRun("stateless", id)[0]
 }
 
 func init() {
@@ -301,6 +317,15 @@ func init() {
 			mu.Unlock()
 		}
 		switch args[0] {
+		case "solo1": // vh inst solo1 <kind> <id>: one instance alone in this process
+			id, _ := strconv.Atoi(args[2])
+			var res []int
+			if args[1] == "stateless" {
+				res = []int{statelessDigest(id)}
+			} else {
+				res = soloRunHere(args[1], id)
+			}
+			return json.NewEncoder(os.Stdout).Encode(res)
 		case "sched":
 			var scheds [][]int
 			b, err := os.ReadFile(args[1])
@@ -368,7 +393,7 @@ func init() {
 				id := 1 + i/len(instKinds)%7
 				jobs = append(jobs, job{kind, id, soloRun(kind, id)})
 			}
-			stSolo := statelessDigest(1)
+			stSolo := statelessSolo(1)
 			var wg sync.WaitGroup
 			start := make(chan struct{})
 			for gi, j := range jobs {
